@@ -7,6 +7,7 @@ import (
 	"fmt"
 	"os"
 	"runtime"
+	"strings"
 	"unicode/utf8"
 
 	"github.com/cockroachdb/redact"
@@ -120,7 +121,7 @@ func markersReplay(args []string) {
 			return
 		}
 		rep.AddReplayed(1)
-		judgeMarkers(rep, ln.S, &ln)
+		rep.Guard("markers:panic", markersCase{"markers", ln.S}, func() { judgeMarkers(rep, ln.S, &ln) })
 		if len(ln.S) > 8 && ln.Wf && len(ln.Redact) != len(ln.S) {
 			rep.Sample(map[string]string{"s": string(ln.S), "redact": string(ln.Redact), "strip": string(ln.Strip)})
 		}
@@ -261,6 +262,29 @@ func judgeEscape(rep *lib.Report, b []byte, model *escapeLine) {
 			}
 		}
 	}
+	// the same through a StringBuilder, which sets the mode before every call
+	for kind := 0; kind < 3; kind++ {
+		run := func(parts ...[]byte) []byte {
+			var sb redact.StringBuilder
+			for _, p := range parts {
+				switch kind {
+				case 0:
+					sb.UnsafeString(string(p))
+				case 1:
+					sb.SafeString(redact.SafeString(p))
+				case 2:
+					sb.Write(p)
+				}
+			}
+			return []byte(sb.RedactableString())
+		}
+		one := run(orig)
+		for k := 0; k <= len(orig); k++ {
+			if two := run(orig[:k], orig[k:]); !bytes.Equal(one, two) {
+				rep.Violate("escape:split:builder", fmt.Sprintf("StringBuilder call kind %d: one call with %q gives %q, two calls with %q and %q give %q", kind, orig, one, orig[:k], orig[k:], two), kase)
+			}
+		}
+	}
 	if model != nil {
 		if !bytes.Equal(eb, model.Eb) {
 			rep.DriftAt(fmt.Sprintf("EscapeBytes(%q) = %q, model %q", orig, eb, []byte(model.Eb)))
@@ -279,6 +303,9 @@ func escapeReplay(args []string) {
 	prop := fs.String("prop", "C10", "")
 	fs.Parse(args)
 	rep := lib.NewReport(*prop, "escape-replay")
+	if *prop == "C01" || *prop == "C03" || *prop == "C11" {
+		rep.Filter = func(sig string) bool { return strings.Contains(sig, "illformed") || strings.Contains(sig, "panic") }
+	}
 	lib.Parallel(runtime.NumCPU(), func(emit func([]byte)) {
 		_ = lib.TLCLines(os.Stdin, func(raw []byte) { emit(append([]byte(nil), raw...)) })
 	}, func(raw []byte) {
@@ -287,7 +314,7 @@ func escapeReplay(args []string) {
 			return
 		}
 		rep.AddReplayed(1)
-		judgeEscape(rep, ln.B, &ln)
+		rep.Guard("escape:panic", escapeCase{"escape", ln.B}, func() { judgeEscape(rep, ln.B, &ln) })
 		if len(ln.B) > 5 && len(ln.Eb) > len(ln.B)+6 {
 			rep.Sample(map[string]string{"b": string(ln.B), "EscapeBytes": string(ln.Eb), "EscapeMarkers": string(ln.Em)})
 		}
